@@ -82,6 +82,9 @@ type c02Resp struct {
 	TrailerSplit int `json:"trailer_split,omitempty"`
 	// Interim: informational responses (1xx) sent on the stream before the final one, each a header block of its own
 	Interim []string `json:"interim,omitempty"`
+	// HeadPad > 0: the response HEADERS frame is padded with HeadPad-1 octets; HeadPrio: it carries a priority section
+	HeadPad  int  `json:"head_pad,omitempty"`
+	HeadPrio bool `json:"head_priority,omitempty"`
 }
 
 type c02Scenario struct {
@@ -261,6 +264,12 @@ func (r c02Resp) shape() string {
 	if r.Pad >= 0 {
 		p = append(p, "padded-data")
 	}
+	if r.HeadPad > 0 {
+		p = append(p, "padded-headers")
+	}
+	if r.HeadPrio {
+		p = append(p, "priority-on-headers")
+	}
 	if len(r.Chunks) > 1 {
 		z := false
 		for _, n := range r.Chunks {
@@ -318,6 +327,10 @@ func (r c02Resp) track(sc *harness.SrvConn, id uint32) []tframe {
 			chunks = append(chunks, nil)
 		}
 		frs = sc.RespFrames(id, fields, choice, r.Splits, chunks, r.Pad)
+		if r.HeadPad > 0 || r.HeadPrio {
+			f0 := frs[0]
+			frs[0] = peer.Headers(id, f0.Payload, peer.HeadersOpt{EndStream: f0.Flags&peer.FEndStream != 0, EndHeaders: f0.Flags&peer.FEndHeaders != 0, Pad: r.HeadPad - 1, Prio: r.HeadPrio, Dep: 0, Weight: 15})
+		}
 		if r.EmptyES {
 			// only the trailing empty frame ends the stream
 			for i := range frs[:len(frs)-1] {
@@ -567,6 +580,23 @@ func runC02(c *fw.Ctx) {
 					r.Splits = []int{7}
 					do(c02Scenario{Family: "response-encoding", Reqs: []int{0}, Resps: []c02Resp{r}})
 				}
+			}
+		}
+	}
+	// the response HEADERS frame padded and / or with a priority section (RFC 7540 6.2 allows both on any HEADERS)
+	for _, hp := range []int{0, 1, 4, 256} {
+		for _, pr := range []bool{false, true} {
+			if hp == 0 && !pr {
+				continue
+			}
+			for _, sp := range [][]int{nil, {7}} {
+				r := base
+				r.HeadPad, r.HeadPrio, r.Splits = hp, pr, sp
+				do(c02Scenario{Family: "response-encoding", Reqs: []int{0}, Resps: []c02Resp{r}})
+				r.Body = ""
+				do(c02Scenario{Family: "response-encoding", Reqs: []int{0}, Resps: []c02Resp{r}})
+				r.Body, r.Trailers = "abc", true
+				do(c02Scenario{Family: "response-encoding", Reqs: []int{0}, Resps: []c02Resp{r}})
 			}
 		}
 	}
